@@ -21,6 +21,7 @@
 import OQuPyVerif.Lemmas.MultiEnvOrder
 import OQuPyVerif.Lemmas.MultiEnvBaths
 import OQuPyVerif.Lemmas.MultiEnvFinite
+import OQuPyVerif.Lemmas.MultiEnvHistory
 import OQuPyVerif.Generated.ControlCompose
 import OQuPyVerif.Model.Control
 import OQuPyVerif.Model.Tempo
@@ -219,6 +220,54 @@ theorem caps_fixed_point_joint (L E : ℕ) (U : ℕ → ℕ → ℕ → K) (ρE 
     capRec L (ptOfJoint L E U ρE trE).D (ptOfJoint L E U ρE trE).T (fun i => dinv * trS i) trS
         ((ptOfJoint L E U ρE trE).cap (k+1)) k b = (ptOfJoint L E U ρE trE).cap k b :=
   ptOfJoint_caps L E U ρE trE trS dinv hd hTP k b hb
+
+/-! ### 3b. the process-tensor object under a history of `set_*` / `get_*` calls -/
+
+/-- neither class memoises anything in `get_mpo_tensor` / `get_cap_tensor` that the corresponding
+    `set_*` method fails to drop (as read from the source: attributes written by the getters) -/
+theorem caches_safe :
+    cacheSafe simpleMpoCache = true ∧ cacheSafe simpleCapCache = true ∧
+    cacheSafe fileMpoCache = true ∧ cacheSafe fileCapCache = true := by decide
+
+/-- **`get_*` is a function of the CURRENT stored tensor (and the transforms) only.**  After any
+    history of `set`/`get` calls on a fresh object, with a getter that does not memoise or whose memo
+    is dropped by the setter, `get k` answers `f` of what is stored for step `k` now — `f` being
+    `mpoTensorOf` (delta expansion and transforms) for `get_mpo_tensor`, the identity for
+    `get_cap_tensor`. -/
+theorem get_is_function_of_current {V W : Type} (cw : CacheWiring) (hs : cacheSafe cw = true)
+    (f : V → W) (ops : List (PtOp V)) (k : ℕ) :
+    (objStep cw f (objRun cw f PtObj.empty ops) (.get k)).2
+      = ((objRun cw f PtObj.empty ops).stored k).map f :=
+  get_of_ok cw f _ (objRun_ok cw hs f ops _ (cacheOk_empty f) (fun _ _ => rfl)).1 k
+
+/-- what is stored now is the value of the last `set` for that step -/
+theorem stored_is_last_set {V W : Type} (cw : CacheWiring) (f : V → W) (ops : List (PtOp V))
+    (k : ℕ) :
+    (objRun cw f (PtObj.empty : PtObj V W) ops).stored k =
+      ops.foldl (fun acc op => match op with
+        | .set j v => if k = j then some v else acc
+        | .get _ => acc) none :=
+  stored_objRun cw f ops PtObj.empty k
+
+/-- **Independence of the history**: two histories that leave the same value stored for step `k`
+    (e.g. "set, contract, overwrite, …" and a fresh object that was only given the final tensors)
+    get the same answer — in particular with the regenerated wiring of both classes. -/
+theorem history_independent {V W : Type} (cw : CacheWiring) (hs : cacheSafe cw = true)
+    (f : V → W) (ops ops' : List (PtOp V)) (k : ℕ)
+    (h : (objRun cw f (PtObj.empty : PtObj V W) ops).stored k
+      = (objRun cw f (PtObj.empty : PtObj V W) ops').stored k) :
+    (objStep cw f (objRun cw f PtObj.empty ops) (.get k)).2
+      = (objStep cw f (objRun cw f PtObj.empty ops') (.get k)).2 := by
+  rw [get_is_function_of_current cw hs, get_is_function_of_current cw hs, h]
+
+/-- the hypothesis `cacheSafe` is needed: a memo that the setter does not drop goes stale
+    (set 1, get, set 2, get answers 1 twice) -/
+example : objTrace { cached := true, invalidatedBySet := false } (fun v : ℕ => v) PtObj.empty
+    [.set 0 1, .get 0, .set 0 2, .get 0] = [none, some 1, none, some 1] := by decide
+
+/-- … and it is met non-trivially (memoising getter, invalidating setter): the same history -/
+example : objTrace { cached := true, invalidatedBySet := true } (fun v : ℕ => v) PtObj.empty
+    [.set 0 1, .get 0, .set 0 2, .get 0] = [none, some 1, none, some 2] := by decide
 
 /-! ### 4. an ancilla environment: the exact joint evolution -/
 
